@@ -1,6 +1,7 @@
 """C03 - hidden names and the special directories are never matched by wildcards (DESIGN.md section 5, C03)."""
 import itertools
 import os
+import re
 import shutil
 
 from .. import env, gen, refmodel as R, findings
@@ -186,7 +187,23 @@ def exclusion_check(ctx, ptoks, etoks, idx, glob_mode):
             continue
         ctx.evals()
         ctx.count('exclusion_checks')
+        class ViaTranslate:
+            def __init__(self, pats, flags, **kw):
+                inc, exc = mod.translate(pats, flags=flags, **kw)
+                self.inc, self.exc = [re.compile(x) for x in inc], [re.compile(x) for x in exc]
+
+            def match(self, n_):
+                return any(r.fullmatch(n_) for r in self.inc) and not any(r.fullmatch(n_) for r in self.exc)
+
+        try:
+            t1 = ViaTranslate(pat, base, exclude=epat)
+            t2 = ViaTranslate([pat, '!' + epat], base | mod.NEGATE)
+            t3 = ViaTranslate(['-' + epat, pat], base | mod.NEGATE | mod.MINUSNEGATE)
+        except Exception as e:  # noqa: BLE001
+            ctx.disagree(f'translate with exclusion raised {type(e).__name__}', {'pattern': pat, 'exclude': epat, 'glob_mode': glob_mode})
+            return
         for api, m in (('exclude=', m1), ('NEGATE !', m2), ('MINUSNEGATE -', m3), ('NEGATE ! (exclusion first)', m4),
+                       ('translate exclude=', t1), ('translate NEGATE !', t2), ('translate MINUSNEGATE - (exclusion first)', t3),
                        ('NEGATE ! (exclusion first, tuple)', m5), ('NEGATE ! (exclusion first, SPLIT)', m6), ('NEGATE ! (exclusion first, BRACE)', m7)):
             got = m.match(n)
             if got is not exp:
